@@ -197,8 +197,8 @@ Proof. exact transfer_late_shadow_refuted_proof. Qed.
 (* ---- the include list NewFilterFS assembles (Model/FilterOpt.v) ----
    IncludePatterns and the targets FollowPaths resolve to (C18's model of FollowLinks) become ONE
    order-sensitive list: the user's patterns in order, then the targets.  What the code hands to
-   the matcher is a SUB-SEQUENCE of that list — same relative order, never sorted —, and the
-   user's list itself when there are no FollowPaths (or "." was resolved). *)
+   the matcher keeps that order — never sorted —, and is the user's list itself when there are
+   no FollowPaths (or "." was resolved). *)
 Theorem include_list_keeps_order :
   forall view inc follow l,
     assemble_includes view inc follow = FollowLinks.Ok l ->
@@ -207,26 +207,17 @@ Theorem include_list_keeps_order :
     (exists ts, follow_targets view follow = FollowLinks.Ok (Some ts) /\ rsub eq l (inc ++ ts)).
 Proof. exact assemble_keeps_order. Qed.
 
-(* ... but NOT an equivalent one: dedupePaths drops every element that is textually below an
-   element kept before it, whatever stands in between.  IncludePatterns [a, !a/x, a/x/y] reports
-   and opens a/x/y; add the unrelated FollowPaths [l] (l -> t) and a/x/y is dropped "below a":
-   the file disappears from the walk, from Open and from the transfer.  (Likewise a follow target
-   below an included directory from which an exception carved it out is never re-included.)
-   Finding dedupe-order-sensitive-includes, replayed on the real code: corpus/C11. *)
-Theorem assembled_includes_not_equivalent_refuted :
-  exists view inc follow la ls ca cs p,
-    wf_source view = true /\
-    assemble_includes view inc follow = FollowLinks.Ok la /\
-    stated_includes view inc follow = FollowLinks.Ok ls /\
-    mk_cfg la [] = Some ca /\ mk_cfg ls [] = Some cs /\
-    source_file view p = true /\
-    filter_open pm_lit ca p <> filter_open pm_lit cs p /\
-    reported pm_lit id_map ca view p <> reported pm_lit id_map cs view p.
-Proof. exact assembled_not_stated_refuted_proof. Qed.
+(* ... and it IS that list, for all inputs: nothing is dropped, nothing reordered (after the fix of
+   finding dedupe-order-sensitive-includes: dedupePaths used to be applied to the combined list and
+   dropped a re-inclusion such as a/x/y in [a, !a/x, a/x/y] as soon as any FollowPaths resolved;
+   regression cases: corpus/C11/dedupe-order.case). *)
+Theorem assembled_includes_are_stated :
+  forall view inc follow, assemble_includes view inc follow = stated_includes view inc follow.
+Proof. exact assemble_is_stated. Qed.
 
 Print Assumptions reset_links_valid.
 Print Assumptions include_list_keeps_order.
-Print Assumptions assembled_includes_not_equivalent_refuted.
+Print Assumptions assembled_includes_are_stated.
 Print Assumptions reset_eq_spec.
 Print Assumptions reset_representative.
 Print Assumptions reference_is_wf_listing.
@@ -292,7 +283,9 @@ Proof. vm_compute. repeat split; reflexivity. Qed.
 Example ex_include_assembly :
   assemble_includes dd_view [bs "!a/x"; bs "a"] [bs "l"] = FollowLinks.Ok [bs "!a/x"; bs "a"; bs "l"; bs "t"]
   /\ assemble_includes dd_view dd_inc [] = FollowLinks.Ok dd_inc
-  /\ assemble_includes dd_view dd_inc dd_follow = FollowLinks.Ok [bs "a"; bs "!a/x"; bs "l"; bs "t"].
+  /\ assemble_includes dd_view dd_inc dd_follow = FollowLinks.Ok [bs "a"; bs "!a/x"; bs "a/x/y"; bs "l"; bs "t"]
+  /\ paths (sender_view pm_lit id_map (dd_cfg [bs "a"; bs "!a/x"; bs "a/x/y"; bs "l"; bs "t"]) dd_view)
+     = [bs "a"; bs "a/k"; bs "a/x"; bs "a/x/y"; bs "l"; bs "t"].
 Proof. vm_compute. repeat split; reflexivity. Qed.
 (* walk and Open on the files of that source *)
 Example ex_walk_open :
